@@ -24,7 +24,9 @@ SHARDS = {"quick": 1, "thorough": 16}
 PREFIX = '<script type="application/json" data-html-dependency="">'
 ENDTAGS = ["</script>", "</SCRIPT>", "</ScRipT>", "</script >", "</SCRIPT\n>", "</script/>", "</scripT\t>", "</script", "</Script>x"]
 HOSTILE = ['"', "'", "\\", "\\\\", "\\n", "\n", "\r\n", "\t", "é", "中", "\U0001f600", "<!--", "-->", "]]>", "&amp;", "&", "<", ">",
-           PREFIX, "{", "}", "\"}", "\\u0041", " ", "\x00", "%", " ", "a.js", "x/y", "null", "<\\/script>"] + ENDTAGS
+           PREFIX, "{", "}", "\"}", "\\u0041", " ", "\x00", "%", " ", "a.js", "x/y", "null", "<\\/script>",
+           # "</" followed by something that cannot start an end tag, other end tags, a lone "<"
+           "</ b", "x</", "</>", "1</2", "<//script>", "</1", "</title>", "</b>", "</", "< /script>", "<\\"] + ENDTAGS
 PLACEHOLDER = "<!--DEPS-PLACEHOLDER-->"
 
 
@@ -33,7 +35,11 @@ def hs(rng, n=3):
 
 
 def rand_dep_recipe(rng, i, benign_head=False):
-    r = {"k": "dep", "name": "dep%d%s" % (i, hs(rng, 2) if not benign_head else ""), "version": rng.choice(["1.0", "2.3.4", "0.0.1", "10"])}
+    r = {"k": "dep", "name": "dep%d%s" % (i, hs(rng, 2) if not benign_head else ""), "version": rng.choice(["1.0", "2.3.4", "0.0.1", "10", "1.0", "2.3.4",
+                                                                                                                             # valid but not in canonical spelling
+                                                                                                                             "1.0-beta", "v2.1", "1.0.0-1", "1.02", " 1.0 ", "1.0RC1", "1.0.post3", "2.0.dev1"])}
+    if rng.random() < 0.1:
+        r["version_object"] = True
     s = rng.random()
     if s < 0.3:
         r["source"] = {"subdir": "lib/" + hs(rng)}  # a NUL is not a valid path character (os.path.realpath rejects it)
